@@ -20,7 +20,8 @@ import sched
 import fakeaudio
 
 ID = "C17"
-RULE = ("every schedule with <= B pre-emptions (B=2 quick, 3 thorough for one player; smaller for 2-3 players) of "
+RULE = ("every schedule with <= B pre-emptions (one player: B=2 quick, 3 thorough; two players: B=2; three players: B=1 quick, "
+        "2 thorough; each enumeration capped, see harness/props/c17.py:generate) of "
         "each control history x wait in {T,F} x chunk counts, plus random walks over schedules; distinct = distinct "
         "(script, wait, cs, executed schedule); non-trivial = at least one player thread ran and at least one "
         "context switch between two unfinished threads happened")
@@ -377,15 +378,15 @@ def generate(rng, tier, scale=1):
                     cfg = {"script": h, "wait": wait, "cs": 2, "with": (hi % 5 == 0 and h[-1] == ["close"])}
                     if cfg["with"]:
                         cfg["script"] = h[:-1]
-                    cases += explore(cfg, 2 if quick else 3, 1500 if quick else 3000)
+                    cases += explore(cfg, 2 if quick else 3, 1500 if quick else 12000)
             for h in HISTORIES_2:
                 for wait in (False, True):
                     cfg = {"script": h, "wait": wait, "cs": 2, "with": False}
-                    cases += explore(cfg, 1 if quick else 2, 400 if quick else 2500)
+                    cases += explore(cfg, 2 if quick else 3, 500 if quick else 6000)
             for h in HISTORIES_3:
                 for wait in (False, True):
                     cfg = {"script": h, "wait": wait, "cs": 3, "with": False}
-                    cases += explore(cfg, 1 if quick else 2, 200 if quick else 2000)
+                    cases += explore(cfg, 1 if quick else 2, 300 if quick else 3000)
             if not quick:
                 # chunk counts 0..4 for every one-player history
                 for h in HISTORIES_1:
@@ -393,9 +394,9 @@ def generate(rng, tier, scale=1):
                         n = max(0, 2 * nchunks - (nchunks % 2))
                         cfg = {"script": [[c[0], n] if c[0] == "play" else list(c) for c in h],
                                "wait": bool(nchunks % 2), "cs": 2, "with": False}
-                        cases += explore(cfg, 2, 600)
+                        cases += explore(cfg, 2, 1200)
         # random schedules over random variations of the histories
-        nrand = (60 if quick else 800) * scale
+        nrand = (80 if quick else 1500) * scale
         pool = HISTORIES_1 + HISTORIES_2 + HISTORIES_3
         for _ in range(nrand):
             h = _resize(rng.choice(pool), rng, 0, 7)
